@@ -39,7 +39,7 @@ package redisemu
 //@ ensures lockstate: held == old(held)
 // a RESP2 connection only ever receives RESP2 types: the reply is the down-conversion of the handler's (RESP3-shaped) result
 //@ ensures [C15] down: ctx.cs.respVersion == 2 ==> resp2(output)
-//@ ensures [C15] asis: ctx.cs.respVersion != 2 && !istype(output.data, respErrorString) ==> output.data == result.data
+//@ ensures internal [C15] asis: ctx.cs.respVersion != 2 && !istype(output.data, respErrorString) ==> output.data == result.data
 //@ ensures free txnstate: ctx.cs.cmdQueueFailed == old(ctx.cs.cmdQueueFailed)
 //@ note the free clause assumes that command handlers never assign clientState.cmdQueueFailed (only prepare, fnExec and fnDiscard do; queued commands exclude those)
 
